@@ -4,12 +4,17 @@
 #include "prog.hpp"
 #include "props.hpp"
 #include <thread>
+#include <pthread.h>
 extern "C" void alw_reset(void) __attribute__((weak));
 
 using namespace prog;
 
 static const Pool &pool(hz::Ctx &ctx) { static Pool p = build_pool(ctx.seed, 2); return p; }
 
+#include <sys/stat.h>
+#include <unistd.h>
+static std::string hist_tmp(const char *name) { static std::string d; if (d.empty()) { const char *root = getenv("VERIF_ROOT"); std::string rb = std::string(root ? root : "/verif") + "/build"; mkdir(rb.c_str(), 0755); d = rb + "/tmp"; mkdir(d.c_str(), 0755); d += "/h" + std::to_string(getpid()); mkdir(d.c_str(), 0755); } return d + "/" + name; }
+static bool hist_write(const std::string &p, const std::string &data) { FILE *f = fopen(p.c_str(), "wb"); if (!f) return false; bool ok = data.empty() || fwrite(data.data(), 1, data.size(), f) == data.size(); fclose(f); return ok; }
 static std::string hexv(const std::vector<uint8_t> &v, size_t max = 48) { return x86::hex(v.data(), std::min(v.size(), max)) + (v.size() > max ? " ..." : ""); }
 
 // ===================================================================== C06
@@ -26,7 +31,7 @@ static HV check06(const C06Case &c) {
   size_t n = c.start + want.size() + 64; if (n < 64) n = 64;
   if (c.tight && !c.lines.empty()) { size_t lastlen = solo(c.lines.back(), c.combo).size(); n = c.start + want.size() - lastlen + 20 + (c.tight - 1); }   // non-code lines behind the last instruction need no room
   std::vector<uint8_t> first;
-  for (int rep = 0; rep < 4; rep++) {
+  for (int rep = 0; rep < 5; rep++) {
     std::vector<uint8_t> buf(n); fill(buf, (c.prefill + rep) % 3, 77 + rep);
     std::vector<uint8_t> before = buf;
     al::heap_fill((unsigned)(rep * 3 + c.start + c.lines.size()));
@@ -37,6 +42,12 @@ static HV check06(const C06Case &c) {
     // split at the cut positions (line indices) into successive calls
     size_t li = 0; std::vector<int> cuts = c.cuts; std::sort(cuts.begin(), cuts.end()); cuts.push_back((int)c.lines.size());
     int rc = 0; int ncall = rep;
+    if (rep == 4) { // fed through a file that the operating system delivers in pieces (read() returns 7..37 bytes at a time)
+      std::string all; for (size_t k = 0; k < c.lines.size(); k++) all += c.lines[k] + NL;
+      std::string fp = hist_tmp("c06.asm"); hist_write(fp, all); std::vector<char> pth(fp.begin(), fp.end()); pth.push_back(0);
+      al::short_reads(7 + (int)((c.lines.size() * 5 + c.start) % 31)); rc = (c.start & 1) ? assemble_file(a, pth.data()) : asm_assemble_file(a, pth.data()); al::short_reads(0);
+      cuts.clear();
+    }
     if (rep == 3) { // fed line by line by a caller that cuts its copy of the text with strtok (the library is handed one token at a time)
       std::string all; for (size_t k = 0; k < c.lines.size(); k++) { if (c.noise && (k % 3) == 0) all += std::string("; comment") + NL; all += c.lines[k] + NL; }
       std::vector<char> copy(all.begin(), all.end()); copy.push_back(0);
@@ -169,9 +180,9 @@ static std::string check_fitting(const std::vector<std::vector<uint8_t>> &insns,
 }
 static int expected_breaks(const std::vector<std::vector<uint8_t>> &insns, size_t start, size_t c) { if (c < 2) return 0; int n = 0; size_t pos = start; for (auto &b : insns) { if (pos / c != (pos + b.size() - 1) / c) n++; pos += b.size(); } return n; }
 
-struct ChunkCase { long long bigc = 0; /* if non-zero the chunk size really used (values beyond int) */ bool count_first = false; /* C13: a counting call between asm_set_chunk_size and the fitted call */ uint64_t pre = 0; /* seed of the instance's previous life, 0 = fresh */ bool internal = false; std::vector<std::string> lines; int c = 16, start = 0, combo = DEFAULT_COMBO; int toggle = 0; /* C13: 0 none, 1 off-then-on between two calls, 2 on-then-off */ int calls = 1; bool counting = false; int tight = 0; /* C14: 1..3 = the caller buffer ends 20..22 bytes behind the start of the last instruction */ };
-static std::string serck(const ChunkCase &k) { std::string s = std::string(k.counting ? "C14" : "C13") + "|" + std::to_string(k.c) + "|" + std::to_string(k.start) + "|" + std::to_string(k.combo) + "|" + std::to_string(k.toggle) + "|" + std::to_string(k.calls + 100 * (k.internal ? 1 : 0)) + ":" + std::to_string(k.pre) + ":" + std::to_string(k.bigc) + ":" + (k.count_first ? "1" : "0") + ":" + std::to_string(k.tight); for (auto &l : k.lines) s += "|" + l; return s; }
-static bool parseck(const std::string &s, ChunkCase &k) { auto f = split(s, '|'); if (f.size() < 7) return false; k.counting = f[0] == "C14"; k.c = atoi(f[1].c_str()); k.start = atoi(f[2].c_str()); k.combo = atoi(f[3].c_str()); k.toggle = atoi(f[4].c_str()); { auto g = split(f[5], ':'); int cc = atoi(g[0].c_str()); k.internal = cc >= 100; k.calls = cc % 100; k.pre = g.size() > 1 ? strtoull(g[1].c_str(), nullptr, 10) : 0; k.bigc = g.size() > 2 ? atoll(g[2].c_str()) : 0; k.count_first = g.size() > 3 && g[3] == "1"; k.tight = g.size() > 4 ? atoi(g[4].c_str()) : 0; } k.lines.assign(f.begin() + 6, f.end()); return true; }
+struct ChunkCase { long long bigc = 0; /* if non-zero the chunk size really used (values beyond int) */ bool count_first = false; /* C13: a counting call between asm_set_chunk_size and the fitted call */ uint64_t pre = 0; /* seed of the instance's previous life, 0 = fresh */ bool internal = false; std::vector<std::string> lines; int c = 16, start = 0, combo = DEFAULT_COMBO; int toggle = 0; /* C13: 0 none, 1 off-then-on between two calls, 2 on-then-off */ int calls = 1; bool counting = false; int tight = 0; /* C14: 1..3 = the caller buffer ends 20..22 bytes behind the start of the last instruction */ int via = 0; /* C14: 0 string, 1 file, 2 file reached through a symbolic link, 3 file through a relative path with ./ and // */ };
+static std::string serck(const ChunkCase &k) { std::string s = std::string(k.counting ? "C14" : "C13") + "|" + std::to_string(k.c) + "|" + std::to_string(k.start) + "|" + std::to_string(k.combo) + "|" + std::to_string(k.toggle) + "|" + std::to_string(k.calls + 100 * (k.internal ? 1 : 0)) + ":" + std::to_string(k.pre) + ":" + std::to_string(k.bigc) + ":" + (k.count_first ? "1" : "0") + ":" + std::to_string(k.tight) + ":" + std::to_string(k.via); for (auto &l : k.lines) s += "|" + l; return s; }
+static bool parseck(const std::string &s, ChunkCase &k) { auto f = split(s, '|'); if (f.size() < 7) return false; k.counting = f[0] == "C14"; k.c = atoi(f[1].c_str()); k.start = atoi(f[2].c_str()); k.combo = atoi(f[3].c_str()); k.toggle = atoi(f[4].c_str()); { auto g = split(f[5], ':'); int cc = atoi(g[0].c_str()); k.internal = cc >= 100; k.calls = cc % 100; k.pre = g.size() > 1 ? strtoull(g[1].c_str(), nullptr, 10) : 0; k.bigc = g.size() > 2 ? atoll(g[2].c_str()) : 0; k.count_first = g.size() > 3 && g[3] == "1"; k.tight = g.size() > 4 ? atoi(g[4].c_str()) : 0; k.via = g.size() > 5 ? atoi(g[5].c_str()) : 0; } k.lines.assign(f.begin() + 6, f.end()); return true; }
 
 static HV check13(const ChunkCase &k, size_t *pads = nullptr) {
   HV v; auto bad = [&](const std::string &s, const std::string &d) { v.ok = false; v.symptom = s; v.detail = d; return v; };
@@ -194,7 +205,10 @@ static HV check13(const ChunkCase &k, size_t *pads = nullptr) {
   for (auto &pt : parts) {
     asm_set_chunk_size(a, pt.second ? CHUNK : 1);
     if (k.count_first) { // a counting call in between must leave the fitting setup alone
-      int keep = asm_get_offset(a), cnt = 0; std::string one = pt.first[0] + "\n"; std::vector<char> w(one.begin(), one.end()); w.push_back(0); asm_assemble_string_counting_chunks(a, w.data(), 8, &cnt); asm_set_offset(a, keep); }
+      int keep = asm_get_offset(a), cnt = 0; int variant = (int)((k.start + k.lines.size()) % 4); std::string one = pt.first[0] + "\n"; if (variant >= 2) one += "definitely not an instruction\n"; std::vector<char> w(one.begin(), one.end()); w.push_back(0);
+      if (variant == 3) { std::string fp = hist_tmp("between.asm"); hist_write(fp, one); std::vector<char> pth(fp.begin(), fp.end()); pth.push_back(0); asm_assemble_file_counting_chunks(a, pth.data(), 8, &cnt); }
+      else if (variant == 1) assemble_string_counting_chunks(a, w.data(), 8, &cnt); else asm_assemble_string_counting_chunks(a, w.data(), 8, &cnt);
+      asm_set_offset(a, keep); }
     std::string text = join(pt.first);
     int rc = asm_assemble_str(a, text.c_str()); int off = asm_get_offset(a);
     const uint8_t *bufp = (const uint8_t *)asm_get_code(a);
@@ -223,7 +237,12 @@ static HV check14(const ChunkCase &k, int *expected_out = nullptr) {
   size_t pos = k.start;
   for (int call = 0; call < std::max(1, k.calls); call++) {
     std::string text = join(k.lines); std::vector<char> w(text.begin(), text.end()); w.push_back(0);
-    int cnt = -12345; int rc = (call & 1) ? assemble_string_counting_chunks(a, w.data(), k.c, &cnt) : asm_assemble_string_counting_chunks(a, w.data(), k.c, &cnt); int off = asm_get_offset(a);
+    int cnt = -12345; int rc;
+    if (k.via) { std::string fp = hist_tmp("prog.asm"), lp = hist_tmp("link.asm"); hist_write(fp, text); std::string use = fp;
+      if (k.via == 2) { unlink(lp.c_str()); if (symlink(fp.c_str(), lp.c_str()) == 0) use = lp; } else if (k.via == 3) { size_t sl = fp.rfind('/'); use = fp.substr(0, sl) + "/.//" + fp.substr(sl + 1); }
+      std::vector<char> pth(use.begin(), use.end()); pth.push_back(0); rc = asm_assemble_file_counting_chunks(a, pth.data(), k.c, &cnt); }
+    else rc = (call & 1) ? assemble_string_counting_chunks(a, w.data(), k.c, &cnt) : asm_assemble_string_counting_chunks(a, w.data(), k.c, &cnt);
+    int off = asm_get_offset(a);
     if (rc != 0) { asm_destroy_instance(a); return bad("rejected", "counting call " + std::to_string(call) + " failed"); }
     int want = expected_breaks(ins, pos, k.c < 2 ? 0 : (size_t)k.c); if (expected_out && call == 0) *expected_out = want;
     if (off != (int)(pos + total)) { asm_destroy_instance(a); return bad("offset", "offset " + std::to_string(off) + " want " + std::to_string(pos + total)); }
@@ -313,10 +332,10 @@ void prop_c14(hz::Ctx &ctx) {
   for (int c : cs) for (int s = 0; s < std::min(std::max(c, 1), 80); s++) for (size_t r = 0; r < reps.size(); r++) {
     if (!ctx.take()) continue;
     ChunkCase k; k.counting = true; k.c = c; k.start = c > 80 ? c - 40 + s : s; k.combo = (int)((c + s + r) & 7) % 12; k.calls = 1 + (int)((s + r) % 3); if ((s + 2 * r + c) % 3 == 0) k.pre = ctx.seed * 1000 + s * 31 + r; k.lines = {reps[r], reps[(r + s) % reps.size()], reps[(r * 5 + 1) % reps.size()]};
-    if ((s + r + c) % 4 == 1) { k.tight = 1 + (int)((s + r) % 3); k.pre = 0; }
+    if ((s + r + c) % 4 == 1) { k.tight = 1 + (int)((s + r) % 3); k.pre = 0; } if ((s * 3 + r + c) % 5 == 2) k.via = 1 + (int)((s + r) % 3);
     std::string id = serck(k); if (!ctx.begin(id, join(k.lines, "\\n"))) continue;
     int want = 0; HV v = check14(k, &want);
-    ctx.cls("part:exhaustive"); if (k.tight) ctx.cls("buffer:ends-with-the-reserve"); if (c < 2) ctx.cls("c:below2"); if (k.calls > 1) ctx.cls("calls:repeated"); if (k.pre) ctx.cls("instance:previous-life");
+    ctx.cls("part:exhaustive"); if (k.tight) ctx.cls("buffer:ends-with-the-reserve"); if (k.via) ctx.cls(k.via == 2 ? "entry:file-through-symlink" : "entry:file"); if (c < 2) ctx.cls("c:below2"); if (k.calls > 1) ctx.cls("calls:repeated"); if (k.pre) ctx.cls("instance:previous-life");
     if (want >= 1 && k.start != 0) ctx.nontrivial(id);
     if (ctx.want_sample()) ctx.put_sample("counting, chunk " + std::to_string(c) + ", start " + std::to_string(k.start) + ", " + std::to_string(k.calls) + " call(s): " + join(k.lines, " ; ") + " -> " + (v.ok ? "count " + std::to_string(want) : v.symptom));
     if (!v.ok) ctx.fail(failck(k, v));
@@ -348,6 +367,22 @@ void prop_c14(hz::Ctx &ctx) {
       if (!v.ok) { hz::Failure f = failck(k, v); f.caseid = id; f.text = std::to_string(k.lines.size() - 4) + " nops then long instructions across the growth threshold, library-managed buffer [chunk " + std::to_string(c) + "]"; ctx.fail(f); }
     }
   }
+  // a program of about a megabyte counted on a thread whose stack is a quarter of that (the library has no business copying its input to the stack)
+  for (int t = 0; t < (ctx.thorough() ? 12 : 3); t++) {
+    if (!ctx.take()) continue;
+    std::string id = "C14S|" + std::to_string(t) + "|" + std::to_string(ctx.seed); if (!ctx.begin(id, "a megabyte of program text, counting call on a thread with a 256 KiB stack")) continue;
+    ctx.cls("part:large-text-small-stack"); ctx.nontrivial(id);
+    hz::Rng r(ctx.seed * 91 + t); std::string text; std::vector<uint8_t> want; while (text.size() < (900u << 10)) { const std::string &l = P.lines[r.below(P.lines.size())]; auto b = solo(l, DEFAULT_COMBO); text += l; text += "\n"; want.insert(want.end(), b.begin(), b.end()); }
+    static const int CS[] = {16, 0, 4096}; int c = CS[t % 3]; struct Arg { std::string *text; int c; int rc, cnt, off; std::vector<uint8_t> got; bool file; std::string path; } arg{&text, c, -1, 0, 0, {}, t % 2 == 1, hist_tmp("big.asm")}; if (arg.file) hist_write(arg.path, text);
+    pthread_attr_t at; pthread_attr_init(&at); pthread_attr_setstacksize(&at, 256 << 10); pthread_t th;
+    auto body = [](void *p) -> void * { Arg *a = (Arg *)p; assemblyline_t al = asm_create_instance(nullptr, 0); std::vector<char> w(a->text->begin(), a->text->end()); w.push_back(0); std::vector<char> pth(a->path.begin(), a->path.end()); pth.push_back(0);
+      a->rc = a->file ? asm_assemble_file_counting_chunks(al, pth.data(), a->c, &a->cnt) : asm_assemble_string_counting_chunks(al, w.data(), a->c, &a->cnt); a->off = asm_get_offset(al); if (a->rc == 0) a->got.assign((uint8_t *)asm_get_code(al), (uint8_t *)asm_get_code(al) + a->off); asm_destroy_instance(al); return nullptr; };
+    pthread_create(&th, &at, body, &arg); pthread_join(th, nullptr); pthread_attr_destroy(&at);
+    std::string why; if (arg.rc != 0) why = "counting call returned " + std::to_string(arg.rc); else if (arg.got != want) why = "code differs from the concatenation of the lines' own code (" + std::to_string(arg.got.size()) + " vs " + std::to_string(want.size()) + " bytes)";
+    else { std::vector<std::vector<uint8_t>> ins; /* expected count */ size_t pos = 0; int exp = 0; hz::Rng r2(ctx.seed * 91 + t); size_t tl = 0; while (tl < (900u << 10)) { const std::string &l = P.lines[r2.below(P.lines.size())]; auto b = solo(l, DEFAULT_COMBO); tl += l.size() + 1; if (c >= 2 && pos / c != (pos + b.size() - 1) / c) exp++; pos += b.size(); } if (arg.cnt != exp) why = "reported " + std::to_string(arg.cnt) + ", " + std::to_string(exp) + " instructions span two or more chunks"; }
+    if (ctx.want_sample()) ctx.put_sample(std::to_string(text.size()) + " bytes of program text" + (arg.file ? " in a file" : "") + ", counting with chunk " + std::to_string(c) + " on a thread with a 256 KiB stack -> " + (why.empty() ? "count and code as expected" : why));
+    if (!why.empty()) { hz::Failure f; f.caseid = id; f.text = "about a megabyte of program text, counting call (chunk " + std::to_string(c) + ") on a thread with a 256 KiB stack"; f.symptom = "count"; f.detail = why; f.tags = {"mn:program", "form:large-text", "sym:count"}; ctx.fail(f); }
+  }
   // programs that emit nothing (empty, comments, labels, directives, blank lines) at every offset of small caller buffers: the
   // counting call reports 0 and otherwise does what the plain call does
   {
@@ -366,12 +401,12 @@ void prop_c14(hz::Ctx &ctx) {
   }
   auto gen_case = rc::gen::apply([&P](std::vector<int> idx, int c, int start, int combo, int calls, int pre, bool internal) {
     ChunkCase k; k.counting = true; if (idx.empty()) idx.push_back(1); for (int i : idx) k.lines.push_back(P.lines[(size_t)i % P.lines.size()]);
-    static const int CS[] = {-5, -1, 0, 1, 2, 3, 4, 5, 7, 8, 11, 13, 15, 16, 17, 32, 33, 64, 100, 4096, 65536, 1 << 30}; k.c = CS[c % 22]; k.start = start; k.combo = combo; k.calls = calls; k.pre = pre % 3 == 0 ? 0 : (uint64_t)pre; k.internal = internal; k.tight = (pre >> 4) % 3 == 0 ? 1 + (pre >> 7) % 3 : 0; if (k.tight) k.pre = 0; return k; },
+    static const int CS[] = {-5, -1, 0, 1, 2, 3, 4, 5, 7, 8, 11, 13, 15, 16, 17, 32, 33, 64, 100, 4096, 65536, 1 << 30}; k.c = CS[c % 22]; k.start = start; k.combo = combo; k.calls = calls; k.pre = pre % 3 == 0 ? 0 : (uint64_t)pre; k.internal = internal; k.tight = (pre >> 4) % 3 == 0 ? 1 + (pre >> 7) % 3 : 0; if (k.tight) k.pre = 0; k.via = (pre >> 9) % 3 == 0 ? 1 + (pre >> 11) % 3 : 0; return k; },
     rc::gen::container<std::vector<int>>(range(0, 1 << 20)), range(0, 22), range(0, 300), range(0, 12), range(1, 4), range(0, 1 << 20), rc::gen::arbitrary<bool>());
   rc_rounds(ctx, "C14-programs", ctx.thorough() ? 3000000 : 300000, 60, [&]() {
     ChunkCase k = *gen_case; std::string id = serck(k); if (!ctx.begin(id, join(k.lines, "\\n").substr(0, 300))) return;
     int want = 0; HV v = check14(k, &want);
-    ctx.cls("part:programs"); if (k.c < 2) ctx.cls("c:below2"); if (k.calls > 1) ctx.cls("calls:repeated"); if (k.pre) ctx.cls("instance:previous-life"); if (k.internal) ctx.cls("buffer:library-managed"); if (k.tight && !k.internal) ctx.cls("buffer:ends-with-the-reserve"); if (want >= 1 && k.start != 0) ctx.nontrivial(id);
+    ctx.cls("part:programs"); if (k.c < 2) ctx.cls("c:below2"); if (k.calls > 1) ctx.cls("calls:repeated"); if (k.pre) ctx.cls("instance:previous-life"); if (k.internal) ctx.cls("buffer:library-managed"); if (k.tight && !k.internal) ctx.cls("buffer:ends-with-the-reserve"); if (k.via) ctx.cls(k.via == 2 ? "entry:file-through-symlink" : "entry:file"); if (want >= 1 && k.start != 0) ctx.nontrivial(id);
     if (ctx.want_sample()) ctx.put_sample(std::to_string(k.lines.size()) + " lines, chunk " + std::to_string(k.c) + ", start " + std::to_string(k.start) + ", " + std::to_string(k.calls) + " call(s) -> " + (v.ok ? "count " + std::to_string(want) : v.symptom));
     if (!v.ok) { hz::Failure f = failck(k, v); if (ctx.match_known(f.tags).empty()) { rc_report(f); RC_FAIL(v.symptom + ": " + v.detail); } else ctx.fail(f); }
   });
